@@ -294,6 +294,10 @@ func LexAccount() []*LexSpec {
 		{"L-null-opt", "B = 'b'?\nC = 'c'"},
 		{"L-accum-eof", "A = 'a'\n@frag 'k' 'l'"},
 		{"L-accum-null", "A = 'a'\n@frag 'k'*"},
+		// an accepting start state next to non-accepting states (minimisation
+		// renumbers the start state's group)
+		{"L-null-eq", "A = 'a'*\nEQ = '=='\nNE = '!' '='"},
+		{"L-null-mode", "Q = '\"' @push_mode(S)\nID = [a-z]+\n@mode S {\nCS = ([a-z] | '\\\\' [nrt])*\nSE = '\"' @pop_mode\n}"},
 	})
 }
 
